@@ -38,6 +38,10 @@ SCALE_TEMPLATES = [
     "x := 0\nfor i := 0; i < @N@; i++ { s := 'a{i % 2}b'\n x = len(s) }\nx",
     "x := 0\nfor i := 0; i < @N@; i++ { func() { defer func() { 1 }()\n return 2 }()\n x = 5 }\nx",
     "x := 0\nfor i := 0; i < @N@; i++ { x = (i % 2 == 0 && 3) || 4 }\nx > 0",
+    # loops over an ITERATOR value (iter(..), a range expression kept in a variable), ended normally / by break / continue
+    "x := 0\nfor i := 0; i < @N@; i++ { it := iter([1, 2])\n for _, v := range it { x = v } }\nx",
+    "x := 0\nfor i := 0; i < @N@; i++ { r := range [1, 2, 3]\n for j, v := range r { if j == 1 { break }\n x = v } }\nx",
+    "x := 0\nfor i := 0; i < @N@; i++ { it := iter({\"a\": 1, \"b\": 2})\n for k in it { if k == \"a\" { continue }\n x = 2 } }\nx",
     "x := 0\nfor i := 0; i < @N@; i++ { m := {\"k\": 1}\n m[\"k\"] += 1\n m.k = 3\n x = m.k }\nx",
     "x := 0\nfor i := 0; i < @N@; i++ { if i % 3 == 0 { x = 1 } else if i % 3 == 1 { x = 2 } else { x = 3 } }\nx > 0",
     "x := 0\ni := 0\nfunc step() { i += 1\n return i }\nfor j := 0; i < @N@; step() { x = 1 }\nx",
